@@ -98,7 +98,8 @@ pub fn canon(q: &Query, r: &Result<QueryReply, QueryError>) -> String {
         Err(QueryError::Conformance(_)) => "err conformance".into(),
         Err(QueryError::NotFound(_)) => "err notfound".into(),
         Err(QueryError::Generic { .. }) => "err generic".into(),
-        Ok(QueryReply::Number(p)) => format!("number {}", fmt_opt_number(&p.raw_value)),
+        // (a machine float is not compared; its printed text goes to the side channel for judges that want it)
+        Ok(QueryReply::Number(p)) => { let v = fmt_opt_number(&p.raw_value); if v.starts_with("float") { format!("number {}\ttext={}", v, hex(&p.format("n u w"))) } else { format!("number {}", v) } }
         Ok(QueryReply::Duration(d)) => format!(
             "duration {} {}",
             fmt_opt_number(&d.raw.raw_value),
@@ -129,7 +130,7 @@ pub fn canon(q: &Query, r: &Result<QueryReply, QueryError>) -> String {
         Ok(QueryReply::Factorize(f)) => format!("factorize {}", f.factorizations.iter().map(|x| x.units.iter().map(|(n, k)| format!("{}:{}", enc_name(n), k)).collect::<Vec<_>>().join(",")).collect::<Vec<_>>().join(";")),
         Ok(QueryReply::UnitsFor(u)) => format!("unitsfor {} {}", u.of.raw_dimensions.as_ref().map(fmt_dim).unwrap_or_else(|| "?".into()),
             u.units.iter().map(|g| format!("{}:{}", g.category.as_ref().map(|c| hex(c)).unwrap_or_else(|| "-".into()), g.units.iter().map(|n| enc_name(n)).collect::<Vec<_>>().join(","))).collect::<Vec<_>>().join(";")),
-        Ok(QueryReply::Search(_)) => "other search".into(),
+        Ok(QueryReply::Search(r)) => format!("search {} {}", r.results.len(), r.results.iter().map(|p| hex(p.unit.as_deref().unwrap_or("?"))).collect::<Vec<_>>().join(",")),
     }
 }
 
@@ -251,8 +252,12 @@ fn worker_loop() -> i32 {
             ["regdigest"] => {
                 use std::hash::{Hash, Hasher};
                 let mut h = std::collections::hash_map::DefaultHasher::new();
-                format!("{:?}", ctx.registry).hash(&mut h);
-                format!("{:?}", ctx.use_humanize).hash(&mut h);
+                // everything a Context holds (its Debug form), with the two things a query legitimately changes taken out
+                let (prev, now, save) = (ctx.previous_result.take(), ctx.now, ctx.save_previous_result);
+                ctx.now = chrono::DateTime::<chrono::Utc>::from_timestamp(0, 0).unwrap().with_timezone(&chrono::Local);
+                ctx.save_previous_result = true;
+                format!("{:?}", ctx).hash(&mut h);
+                ctx.previous_result = prev; ctx.now = now; ctx.save_previous_result = save;
                 format!("digest {:016x}", h.finish())
             }
             ["ans", flag] => { ctx.save_previous_result = *flag == "on"; "ok".into() }
